@@ -260,6 +260,39 @@ where
         let n = if it % 3 == 0 { rng.range(-40, 40) as i32 } else { POWI_EXPS[rng.below(POWI_EXPS.len() as u64) as usize] };
         ev_logs::<S, D>(ev, ls, ld, "powi", x, n as u32 as u128);
     }
+    // pow with a base next to one and a power-of-two exponent of every size (systematic): x = 1 +- j ulp for j in {1, 2, 3, 5, 256}
+    // and j around 2^(F-24), 2^(F-23) (the resolution of the module's I9F23 constants seen from a finer type), y = +-2^m for every m
+    // that fits.  ln(1 + d) ~ d is where pow's error is amplified by y, and where a comparison against the constant ONE / TWO
+    // that loses the operand's extra fractional bits changes the branch taken (seeded change C15-H).
+    {
+        let one = 1u128 << ls.f;
+        let mut js: Vec<u128> = vec![1, 2, 3, 5, 256];
+        for e in [24u32, 23].iter() {
+            if ls.f > *e + 1 {
+                let c = 1u128 << (ls.f - *e);
+                js.extend_from_slice(&[c - 1, c, c + 1, c >> 1]);
+            }
+        }
+        let ib = ls.n - ls.f - ls.signed as u32;
+        for &j in js.iter() {
+            for &neg in [false, true].iter() {
+                let x = if neg { one.wrapping_sub(j) } else { one.wrapping_add(j) };
+                if x > ls.max_bits() {
+                    continue;
+                }
+                for m in 0..ib.min(64) {
+                    let y = (1u128 << m) << ls.f;
+                    if y > ls.max_bits() {
+                        break;
+                    }
+                    ev_logs::<S, D>(ev, ls, ld, "pow", x, y);
+                    if ls.signed && m % 3 == 0 {
+                        ev_logs::<S, D>(ev, ls, ld, "pow", x, y.wrapping_neg() & ls.mask());
+                    }
+                }
+            }
+        }
+    }
     // powi over the WHOLE i32 exponent range (the property quantifies over all 2^32 exponents; the grid above has 24 constants
     // and |n| <= 40): random exponents and +-2^k, +-(2^k +- 1) for every k, with bases whose running power leaves the range after
     // at most `width` multiplications (|x| >= 2, so the call is cheap whatever |n| is) or is zero.  Separate PRNG stream.
